@@ -131,20 +131,45 @@ func (x *keySet) Range(dir int, lo, hi [2]int) iterator.Iterator[[2]int] {
 // NewSMap builds the real collection for a variant over spec keys 1..n. cmpCount, if not nil, is
 // incremented on every comparator call (C03's comparison bound).
 func NewSMap(variant string, n int, cmpCount *int) smap {
+	return NewSMapObs(variant, n, cmpCount, nil)
+}
+
+// NewSMapObs: onCmp (if not nil) is called with the two keys of every comparator call, as spec keys.
+func NewSMapObs(variant string, n int, cmpCount *int, onCmp func(a, b int)) smap {
+	var fromInt func(int) int
 	count := func() {
 		if cmpCount != nil {
 			*cmpCount++
 		}
 	}
-	intLess := func(a, b int) bool { count(); return a < b }
-	intCmp := func(a, b int) int { count(); return a - b }
+	obs := func(a, b int) {
+		count()
+		if onCmp != nil {
+			onCmp(fromInt(a), fromInt(b))
+		}
+	}
+	switch variant {
+	case "rev", "setcmp":
+		fromInt = func(c int) int {
+			if c == 0 {
+				return 0
+			}
+			return n + 1 - c/10
+		}
+	case "coarse":
+		fromInt = func(c int) int { return c }
+	default:
+		fromInt = func(c int) int { return c / 10 }
+	}
+	intLess := func(a, b int) bool { obs(a, b); return a < b }
+	intCmp := func(a, b int) int { obs(a, b); return a - b }
 	switch variant {
 	case "", "int":
 		return &keyMap[int]{m: tree.NewMap[int, int](intLess), to: func(k int) int { return 10 * k }, from: func(c int) int { return c / 10 }}
 	case "cmp":
 		return &keyMap[int]{m: tree.NewMapCmp[int, int](intCmp), to: func(k int) int { return 10 * k }, from: func(c int) int { return c / 10 }}
 	case "rev":
-		return &keyMap[int]{m: tree.NewMap[int, int](func(a, b int) bool { count(); return a > b }),
+		return &keyMap[int]{m: tree.NewMap[int, int](func(a, b int) bool { obs(a, b); return a > b }),
 			to: func(k int) int { return 10 * (n + 1 - k) }, from: func(c int) int {
 				if c == 0 {
 					return 0
@@ -152,7 +177,16 @@ func NewSMap(variant string, n int, cmpCount *int) smap {
 				return n + 1 - c/10
 			}}
 	case "str":
-		return &keyMap[string]{m: tree.NewMap[string, int](func(a, b string) bool { count(); return a < b }),
+		return &keyMap[string]{m: tree.NewMap[string, int](func(a, b string) bool {
+			count()
+			if onCmp != nil {
+				var x, y int
+				fmt.Sscanf(a, "k%d", &x)
+				fmt.Sscanf(b, "k%d", &y)
+				onCmp(x, y)
+			}
+			return a < b
+		}),
 			to: func(k int) string { return fmt.Sprintf("k%06d", k) }, from: func(c string) int {
 				if c == "" {
 					return 0
@@ -162,12 +196,12 @@ func NewSMap(variant string, n int, cmpCount *int) smap {
 				return k
 			}}
 	case "coarse":
-		return &keyMap[int]{m: tree.NewMapCmp[int, int](func(a, b int) int { count(); return (a+1)/2 - (b+1)/2 }),
+		return &keyMap[int]{m: tree.NewMapCmp[int, int](func(a, b int) int { obs(a, b); return (a+1)/2 - (b+1)/2 }),
 			to: func(k int) int { return k }, from: func(c int) int { return c }}
 	case "set":
 		return &keySet{s: tree.NewSet[int](intLess), to: func(k int) int { return 10 * k }, from: func(c int) int { return c / 10 }}
 	case "setcmp":
-		return &keySet{s: tree.NewSetCmp[int](func(a, b int) int { count(); return b - a }),
+		return &keySet{s: tree.NewSetCmp[int](func(a, b int) int { obs(a, b); return b - a }),
 			to: func(k int) int { return 10 * (n + 1 - k) }, from: func(c int) int {
 				if c == 0 {
 					return 0
